@@ -143,7 +143,7 @@ class PotAdapter(Adapter):
         return {'pot': p, 'dia': list(st['dia']), 'kind': st['pot']['kind']}
 
     def clone(self, w):
-        return {'pot': copy.deepcopy(w['pot']), 'dia': list(w['dia']), 'kind': w['kind']}
+        return {'pot': copy.deepcopy(w['pot'], {id(self.r): self.r}), 'dia': list(w['dia']), 'kind': w['kind']}
 
     def step(self, w, l):
         act, p, c = l['act'], w['pot'], self.c
@@ -202,7 +202,7 @@ class PotAdapter(Adapter):
 
     def calculate(self, w, l):
         p = w['pot']
-        r = np.array(self.r)
+        r = self.r                      # the same array object on every call (Domain.r)
         r0 = r.tobytes()
         try:
             with np.errstate(all='ignore'):
